@@ -1,5 +1,7 @@
 import CMacVerif.Model.Ranlux
 import CMacVerif.Model.RanluxSplit
+import CMacVerif.Model.RanluxUse
+import CMacVerif.Inst.Float
 import CMacVerif.Util.Bits
 open CMacVerif CMacVerif.Util CMacVerif.Ranlux
 
@@ -60,6 +62,17 @@ def splitOp (ws : List String) : String :=
     "split " ++ " ".intercalate (r.map toString) ++ (if L = 0 then " #split-no-leftover" else " #split-leftover")
   | _ => "bad-op"
 
+instance : TrigFns Float := ⟨Float.cos, Float.sin, 3.14159265358979323846⟩
+
+/-- `emit`: three consecutive draws through `emitDirection` / `emitTau` at `Float` -/
+def emitOp (s : State) (tag : String) : State × String :=
+  let (k1, s1) := next exact s
+  let (k2, s2) := next exact s1
+  let (k3, s3) := next exact s2
+  let (x, y, z) := emitDirection (toF k1) (toF k2)
+  let tau := emitTau (toF k3)
+  (s3, s!"emit {showF x} {showF y} {showF z} {showF tau} #emit-{tag}")
+
 def step (s : State) : List String → State × String
   | ["seed", n] =>
     let s' := seedState exact (intOf n)
@@ -81,6 +94,15 @@ def step (s : State) : List String → State × String
       | some s' => (s', s!"state {showState s'}")
       | none => (s, "state-error")
     else (s, "bad-op")
+  | ["abi"] => (s, "abi 8 8 8 #abi")
+  | ["nexti"] =>
+    let (r, s') := nextInt exact s
+    (s', s!"nexti {r} #nexti")
+  | ["emit", "s"] => emitOp s "source"
+  | ["emit", "r"] => emitOp s "reemit"
+  | ["threads", s0, n] =>
+    let firsts := (threadStates (intOf s0) (nat! n)).map fun t => toString (bitsOfInt (next exact t).1)
+    (s, "threads " ++ " ".intercalate firsts ++ " #threads")
   | "split" :: rest => (s, splitOp rest)
   | ["dump"] => (s, s!"dump {showState s}")
   | ["restore"] =>
